@@ -5,7 +5,7 @@ set -u
 cd "$(dirname "$0")/.."
 for d in seeded/C*/; do
   id=$(basename "$d"); prop=${id:0:3}
-  patch="$d/patch.diff"; [ -f "$d/patch-rebased.diff" ] && patch="$d/patch-rebased.diff"
+  patch="$(pwd)/$d/patch.diff"; [ -f "$d/patch-rebased.diff" ] && patch="$(pwd)/$d/patch-rebased.diff"
   if ! git -C /repo apply --check "$patch" 2>/dev/null; then echo "$id: patch no longer applies (superseded)"; echo "patch no longer applies to the current tree" > "$d/detection-final.txt"; continue; fi
   git -C /repo apply "$patch"
   out=$(timeout 1500 ./check "$prop" --tier quick 2>&1 | grep -E "^(VIOLATION|OK)" | head -1)
